@@ -103,6 +103,15 @@ struct cls<3> {
 template<int I>
 using cls_t = typename cls<I>::type;
 
+// a group of unrelated classes whose registration can come and go (a plug-in):
+// makes the hash table size and multiplier change between updates
+struct XR {
+    virtual ~XR() {
+    }
+};
+template<int I>
+struct XK : XR {};
+
 struct PD : policy::release::rebind<PD> {};
 struct PC : policy::debug::rebind<PC> {};
 struct PM : policy::basic_policy<
@@ -401,7 +410,22 @@ struct W {
 
     // ---- histories: ops 0..3 toggle definition i, 4 update, 5..8 create a
     // pointer to an object of class K3 / K1 by a route, 9 call through every
-    // valid pointer
+    // valid pointer, 10 register / unregister a group of 12 unrelated classes
+    using Group = use_classes<
+        XR, XK<0>, XK<1>, XK<2>, XK<3>, XK<4>, XK<5>, XK<6>, XK<7>, XK<8>, XK<9>, XK<10>,
+        XK<11>, P>;
+    alignas(16) static inline unsigned char group_mem[sizeof(Group)];
+    static inline bool group_live = false;
+    static void set_group(bool on) {
+        if (on == group_live)
+            return;
+        group_live = on;
+        if (on) {
+            memset(group_mem, 0, sizeof group_mem);
+            new (group_mem) Group();
+        } else
+            reinterpret_cast<Group*>(group_mem)->~Group();
+    }
     struct Ptr {
         std::optional<virtual_ptr<K0, P>> p;
         int cls = -1;
@@ -418,8 +442,10 @@ struct W {
                 // replay the sequence from a clean registry
                 ++g_histories;
                 set_defs(0);
+                set_group(false);
                 update<P>();
                 unsigned defs = 0;
+                bool group = false;
                 bool clean = true; // registrations unchanged since the last update
                 std::vector<Ptr> ptrs;
                 std::string text;
@@ -427,7 +453,11 @@ struct W {
                     text += std::to_string(op) + " ";
                 g_where = std::string(LATNAME) + " policy=" + pname() + " history=" + text;
                 for (int op : seq) {
-                    if (op < 4) {
+                    if (op == 10) {
+                        group = !group;
+                        set_group(group);
+                        clean = false;
+                    } else if (op < 4) {
                         defs ^= 1u << op;
                         set_defs(defs);
                         clean = false;
@@ -479,7 +509,7 @@ struct W {
             }
             if ((int)seq.size() == depth)
                 return;
-            for (int op = 0; op < 10; ++op) {
+            for (int op = 0; op < 11; ++op) {
                 seq.push_back(op);
                 rec();
                 seq.pop_back();
@@ -487,6 +517,7 @@ struct W {
         };
         rec();
         set_defs(0);
+        set_group(false);
     }
 };
 
